@@ -10,6 +10,11 @@ CHECKS = {
          "Breadth-first search over all histories (alphabet ~110 operations: pushes with good/bad descriptors, 9 manifest kinds tagged/untagged, mounts, deletes, one chunked upload session with write/resume/commit/cancel, invalid names) to depth 2 (quick) / 4 with caps (thorough) from the empty registry and from 6 seeded non-initial states, in both configurations, plus a closed mini-universe explored to FIXPOINT (every reachable state, any history length). A state is the canonical reflective dump of the real registry object graph plus upload handles; every transition is a real call compared with a three-valued reference model, then ~260 read/resolve/list queries are compared with the model. All traces are implementation traces.",
          "Bounded universe (2+1 repositories, 3 blobs, 9 manifests, 2 tags, <=3-byte uploads). Codes compared only where interface.go documents them; content-free repositories may be unknown or empty; silent cases are three-valued.",
          "DESIGN.md 3 C02"),
+ "C04": ("model_checking", "E2-state",
+         "exhaustive enumeration of chunked-writer scripts executed on the real stacks (direct, HTTP one and two hops, unified) with a concatenation oracle",
+         "Every composition of an n-byte content (n <= 5 quick / 6 thorough, incl. zero-length writes, a NUL byte) into Write calls x chunk-size hints {-1,0,1,2,3,5,9} x EVERY subset of write boundaries closed-and-resumed x resume modes {explicit Size(), -1, alternating} x one bad resume (offset +1, -1, 0) tried first at each boundary (must be refused with RANGE_INVALID/416, a second attempt on the same writer too, and the upload must be unaltered) x right / wrong commit digest, on ocimem, client->server->ocimem with registry minimum chunk 1,2,3 (tiny-data flush logic) and the real 8192, two proxy hops, ociunify and ociunify over HTTP; plus write sizes {0,1,8191,8192,8193,16384} around the real minimum. Oracle: every accepted Write returns (len,nil), Size() equals bytes accepted, GetBlob after Commit returns exactly the concatenation, wrong digest stores nothing under either digest.",
+         "Contents <= 6 bytes (plus the 8 KiB family). Excluded as stated: resume with -1 after exactly one byte. In-process transport bound to net/http by C03's loopback run.",
+         "DESIGN.md 3 C04"),
  "C08": ("model_checking", "E1-sched",
          "stateless schedule exploration of the real ocimem (and ociclient->ociserver->ocimem) under a cooperative scheduler, twice: linearizability oracle, and -race build with a futex parker invisible to the race detector",
          "12 directed harnesses (tag retarget vs GetTag, commit vs write, two resumers, delete vs mount vs read, tagged push vs delete of a referenced blob and two pushers on one tag in immutable-tags mode, listing vs push/delete, concurrent first reads of a chunk-committed blob, cancel vs commit vs read; three of them also through ociclient->in-process transport->ociserver) explored over ALL schedules, plus 169 generated 2-thread programs (thorough: + 3x1 and 2+1 programs, ~5k) with <= 2 preemptions. Every complete schedule: brute-force linearizability of the recorded invocation/response history against the C02 reference model including the final read sweep. The same harness bodies are re-explored in a -race build where threads hand off through raw futex calls on plain words in //go:norace code, so the detector sees exactly the program's own synchronisation on EVERY explored schedule (not on whatever a stress run happens to hit); a detected race is reported with the two access sites.",
